@@ -261,4 +261,255 @@ theorem go_processDuplicates_closed (w : List (Go.U64 × List GValue) → List (
       · simp only [hl, decide_false, if_false, Bool.false_eq_true]
         cases safe <;> rfl
 
+
+/-! ## the closed form and the model's `keepRow` / `sortTraits` -/
+
+theorem getPrimaryLoop_mem (rest : List Genum.Value) : ∀ p : Genum.Value, (getPrimaryLoop p rest).1 ∈ p :: rest := by
+  induction rest with
+  | nil => intro p; simp [getPrimaryLoop]
+  | cons v rest ih =>
+    intro p
+    unfold getPrimaryLoop
+    by_cases h1 : (p.deprecated && !v.deprecated) = true
+    · simp only [h1, if_true]
+      exact List.mem_cons_of_mem _ (ih v)
+    · by_cases h2 : (!p.deprecated && !v.deprecated) = true
+      · simp only [h1, h2, if_true, if_false, Bool.false_eq_true]
+        exact List.mem_cons_self
+      · simp only [h1, h2, if_false, Bool.false_eq_true]
+        have := ih p
+        simp only [List.mem_cons] at this ⊢
+        rcases this with h | h
+        · exact Or.inl h
+        · exact Or.inr (Or.inr h)
+
+theorem getPrimary_mem (G : List Genum.Value) (pm : Genum.Value) (safe : Bool)
+    (h : Genum.getPrimary G = some (pm, safe)) : pm ∈ G := by
+  match G, h with
+  | [v], h => simp [Genum.getPrimary] at h; simp [h.1]
+  | v :: w :: rest, h =>
+    simp only [Genum.getPrimary, Option.some.injEq] at h
+    have := getPrimaryLoop_mem (w :: rest) v
+    rw [h] at this
+    exact this
+
+theorem getPrimary_some (G : List Genum.Value) (hG : G ≠ []) : ∃ pm safe, Genum.getPrimary G = some (pm, safe) := by
+  match G, hG with
+  | [v], _ => exact ⟨v, true, rfl⟩
+  | v :: w :: rest, _ => exact ⟨_, _, rfl⟩
+
+/-- the group of number `k` -/
+def groupAt (vs : List Genum.Value) (k : Go.U64) : List Genum.Value :=
+  vs.filter (fun v => BitVec.ofNat 64 v.value == k)
+
+theorem mem_groupsOfWalk (w : List (Go.U64 × List GValue) → List (Go.U64 × List GValue)) (hw : ∀ l, (w l).Perm l)
+    (vs : List Genum.Value) (G : List Genum.Value) :
+    G ∈ groupsOfWalk w vs ↔ ∃ k, G = groupAt vs k ∧ G ≠ [] := by
+  unfold groupsOfWalk
+  simp only [List.mem_map]
+  constructor
+  · rintro ⟨e, he, rfl⟩
+    have he' : (e.1, e.2) ∈ groups (vs.map C04Tie.abs) := (hw _).mem_iff.mp he
+    rw [mem_groups, filter_abs] at he'
+    refine ⟨e.1, rfl, fun hnil => he'.2 ?_⟩
+    rw [he'.1]
+    unfold groupAt at hnil
+    rw [hnil]; rfl
+  · rintro ⟨k, rfl, hne⟩
+    refine ⟨(k, (vs.map C04Tie.abs).filter (sameValue k)), ?_, rfl⟩
+    apply (hw _).mem_iff.mpr
+    rw [mem_groups]
+    refine ⟨rfl, fun hnil => hne ?_⟩
+    rw [filter_abs] at hnil
+    unfold groupAt
+    exact List.map_eq_nil_iff.mp hnil
+
+theorem groupAt_owner (vs : List Genum.Value) (hU : ∀ v ∈ vs, C04Tie.U64 v) (o : Genum.Value) (ho : C04Tie.U64 o) :
+    groupAt vs (BitVec.ofNat 64 o.value) = vs.filter (fun v => v.value == o.value) := by
+  unfold groupAt
+  apply List.filter_congr
+  intro v hv
+  have := C04Tie.ofNat_eq v.value o.value (hU v hv) ho
+  rw [Bool.eq_iff_iff]
+  simp only [beq_iff_eq]
+  exact this
+
+/-- the conjunction over the walked groups = the model's `keepRow`, whatever the walk order -/
+theorem prims_all_eq_keepRow (w : List (Go.U64 × List GValue) → List (Go.U64 × List GValue)) (hw : ∀ l, (w l).Perm l)
+    (vs : List Genum.Value) (hU : ∀ v ∈ vs, C04Tie.U64 v) (r : TraitRow) (hr : r.owner ∈ vs)
+    (x : GTraitInstance) (hx : x.OwningValue = C04Tie.abs r.owner) :
+    (prims (groupsOfWalk w vs)).all (fun p => !dropFor p x) = keepRow {} vs r := by
+  have hUo := hU _ hr
+  have hG0 := groupAt_owner vs hU r.owner hUo
+  have hmem0 : r.owner ∈ vs.filter (fun v => v.value == r.owner.value) := by simp [hr]
+  have hne0 : vs.filter (fun v => v.value == r.owner.value) ≠ [] := List.ne_nil_of_mem hmem0
+  obtain ⟨pm0, safe0, hp0⟩ := getPrimary_some _ hne0
+  have hpm0 := getPrimary_mem _ _ _ hp0
+  have hv0 : pm0.value = r.owner.value := by simpa using (List.mem_filter.mp hpm0).2
+  have hkeep : keepRow {} vs r = (r.owner.name == pm0.name) := by
+    unfold keepRow
+    simp only [hp0, hv0]
+    by_cases hn : r.owner.name = pm0.name <;> simp [hn, bne]
+  rw [hkeep, Bool.eq_iff_iff]
+  simp only [List.all_eq_true, Bool.not_eq_true', beq_iff_eq]
+  constructor
+  · intro hall
+    by_cases hl : (vs.filter (fun v => v.value == r.owner.value)).length > 1
+    · have hin : vs.filter (fun v => v.value == r.owner.value) ∈ groupsOfWalk w vs :=
+        (mem_groupsOfWalk w hw vs _).mpr ⟨BitVec.ofNat 64 r.owner.value, hG0.symm, hne0⟩
+      have hpr : C04Tie.abs pm0 ∈ prims (groupsOfWalk w vs) := by
+        unfold prims
+        simp only [List.mem_filterMap]
+        exact ⟨_, hin, by simp [hl, primOf, hp0]⟩
+      have := hall _ hpr
+      simp only [dropFor, hx, C04Tie.abs, hv0, beq_self_eq_true, Bool.true_and, bne_eq_false_iff_eq] at this
+      exact this
+    · -- a single name: it is the owner itself
+      match hvf : vs.filter (fun v => v.value == r.owner.value), hne0 with
+      | [v], _ =>
+        rw [hvf] at hp0 hmem0
+        simp [Genum.getPrimary] at hp0
+        simp at hmem0
+        rw [← hp0.1, hmem0]
+      | a :: b :: rest, _ => rw [hvf] at hl; simp at hl
+      | [], _ => exact absurd hvf hne0
+  · intro hname p hp
+    unfold prims at hp
+    simp only [List.mem_filterMap] at hp
+    obtain ⟨G, hG, hGp⟩ := hp
+    obtain ⟨k, hk, hGne⟩ := (mem_groupsOfWalk w hw vs G).mp hG
+    by_cases hl : G.length > 1
+    · simp only [hl, if_true, primOf, Option.map_eq_some_iff] at hGp
+      obtain ⟨⟨pm, safe⟩, hpm, rfl⟩ := hGp
+      have hpmG := getPrimary_mem _ _ _ hpm
+      rw [hk] at hpmG
+      have hpk : BitVec.ofNat 64 pm.value = k := by simpa [groupAt] using (List.mem_filter.mp hpmG).2
+      by_cases hvv : BitVec.ofNat 64 r.owner.value = BitVec.ofNat 64 pm.value
+      · have hkk : k = BitVec.ofNat 64 r.owner.value := by rw [← hpk, hvv]
+        rw [hk, hkk, hG0, hp0] at hpm
+        simp only [Option.some.injEq, Prod.mk.injEq] at hpm
+        simp [dropFor, hx, C04Tie.abs, ← hpm.1, hname]
+      · simp [dropFor, hx, C04Tie.abs, hvv]
+    · simp [hl] at hGp
+
+
+theorem insert_rel {first : Genum.Value} {t : Genum.TraitDesc} {g : GTraitDesc} (htg : DescRel first t g)
+    {us : List Genum.TraitDesc} {hs : List GTraitDesc} (h : All₂ (DescRel first) us hs) :
+    All₂ (DescRel first) (insertTrait t us) (Go.sortInsert (fun a b => decide (a.Name < b.Name)) g hs) := by
+  induction h with
+  | nil => exact .cons htg .nil
+  | @cons u h' us hs hab hrest ih =>
+    unfold insertTrait Go.sortInsert
+    simp only [htg.name, hab.name]
+    by_cases hlt : t.name < u.name
+    · simp only [hlt, decide_true, if_true]
+      exact .cons htg (.cons hab hrest)
+    · simp only [hlt, decide_false, if_false, Bool.false_eq_true]
+      exact .cons hab ih
+
+/-- `sort.Sort(traits)` on related descriptors is the model's `sortTraits` -/
+theorem sort_rel {first : Genum.Value} {ts : List Genum.TraitDesc} {gs : List GTraitDesc}
+    (h : All₂ (DescRel first) ts gs) :
+    All₂ (DescRel first) (sortTraits ts) (Go.sortSort (fun a b => decide (a.Name < b.Name)) gs) := by
+  induction h with
+  | nil => exact .nil
+  | cons hab _ ih =>
+    unfold sortTraits Go.sortSort
+    simp only [List.foldr_cons]
+    exact insert_rel hab ih
+
+/-- the model's `processDuplicates`: every trait keeps the rows `keepRow` keeps -/
+def keepRows (vs : List Genum.Value) (t : Genum.TraitDesc) : Genum.TraitDesc :=
+  { t with rows := t.rows.filter (keepRow {} vs) }
+
+theorem map_rel {first : Genum.Value} {ts : List Genum.TraitDesc} {gs : List GTraitDesc}
+    (h : All₂ (DescRel first) ts gs) (f : Genum.TraitDesc → Genum.TraitDesc) (f' : GTraitDesc → GTraitDesc)
+    (hf : ∀ t g, t ∈ ts → DescRel first t g → DescRel first (f t) (f' g)) :
+    All₂ (DescRel first) (ts.map f) (gs.map f') := by
+  induction h with
+  | nil => exact .nil
+  | @cons t g ts gs hab _ ih =>
+    exact .cons (hf t g (by simp) hab) (ih (fun t' g' ht' => hf t' g' (by simp [ht'])))
+
+theorem All₂.filter_mem {α β : Type} {R : α → β → Prop} {p : α → Bool} {q : β → Bool}
+    {l : List α} {l' : List β} (h : All₂ R l l') (hpq : ∀ a b, a ∈ l → R a b → p a = q b) :
+    All₂ R (l.filter p) (l'.filter q) := by
+  induction h with
+  | nil => exact .nil
+  | @cons a b as bs hab _ ih =>
+    have ih' := ih (fun a' b' ha' => hpq a' b' (by simp [ha']))
+    simp only [List.filter_cons, ← hpq a b (by simp) hab]
+    split
+    · exact .cons hab ih'
+    · exact ih'
+
+/-- `processDuplicates` on the code's descriptors of the model's traits, for every enum whose values fit 64 bits,
+every walk order of the map: no panic, and the result is the model's `sortTraits (map keepRows …)` - the rows of
+non-primary duplicate names are gone, the traits are sorted by name -/
+theorem go_processDuplicates_eq (first : Genum.Value) (vs : List Genum.Value) (hvs : vs ≠ [])
+    (hU : ∀ v ∈ vs, C04Tie.U64 v)
+    (ts : List Genum.TraitDesc) (gs : List GTraitDesc) (h : All₂ (DescRel first) ts gs)
+    (hown : ∀ t ∈ ts, ∀ r ∈ t.rows, r.owner ∈ vs)
+    (w : List (Go.U64 × List GValue) → List (Go.U64 × List GValue)) (hw : ∀ l, (w l).Perm l) (e : String) :
+    ∃ gs', processDuplicates w (vs.map C04Tie.abs) gs e = pure gs' ∧
+      All₂ (DescRel first) (sortTraits (ts.map (keepRows vs))) gs' := by
+  refine ⟨_, go_processDuplicates_closed w hw vs gs e, ?_⟩
+  simp only [hvs, if_false]
+  apply sort_rel
+  apply map_rel h
+  intro t g ht htg
+  refine ⟨htg.name, htg.parsable, htg.fam, ?_⟩
+  unfold keepRows pruneAll
+  simp only []
+  apply htg.rows.filter_mem
+  intro r x hr hrx
+  exact (prims_all_eq_keepRow w hw vs hU r (hown t ht r hr) x hrx.owner).symm
+
+/-- with no values the function returns at once (the generator never calls it then) -/
+theorem go_processDuplicates_nil (w : List (Go.U64 × List GValue) → List (Go.U64 × List GValue))
+    (hw : ∀ l, (w l).Perm l) (gs : List GTraitDesc) (e : String) :
+    processDuplicates w [] gs e = pure gs := by
+  have := go_processDuplicates_closed w hw [] gs e
+  simpa using this
+
+/-- headline of C12 for the translated code: after the translated `processDuplicates`, a trait has no instance on
+the definition line of a NON-primary name of a duplicated value - the row the accessor and the Parse switch see
+for a value is the one of its primary name (`accessor_returns_declared` rests on exactly this) -/
+theorem go_no_row_of_nonprimary (first : Genum.Value) (vs : List Genum.Value) (hvs : vs ≠ [])
+    (hU : ∀ v ∈ vs, C04Tie.U64 v)
+    (ts : List Genum.TraitDesc) (gs : List GTraitDesc) (h : All₂ (DescRel first) ts gs)
+    (hown : ∀ t ∈ ts, ∀ r ∈ t.rows, r.owner ∈ vs)
+    (w : List (Go.U64 × List GValue) → List (Go.U64 × List GValue)) (hw : ∀ l, (w l).Perm l) (e : String) :
+    ∃ gs', processDuplicates w (vs.map C04Tie.abs) gs e = pure gs' ∧
+      ∃ ts', All₂ (DescRel first) ts' gs' ∧ ∀ t' ∈ ts', ∀ r ∈ t'.rows, keepRow {} vs r = true := by
+  obtain ⟨gs', hgs, hrel⟩ := go_processDuplicates_eq first vs hvs hU ts gs h hown w hw e
+  refine ⟨gs', hgs, _, hrel, ?_⟩
+  intro t' ht' r hr
+  have ht'' : t' ∈ ts.map (keepRows vs) := (Genum.sortTraits_perm _).mem_iff.mp ht'
+  simp only [List.mem_map] at ht''
+  obtain ⟨t, _, rfl⟩ := ht''
+  unfold keepRows at hr
+  simp only [List.mem_filter] at hr
+  exact hr.2
+
+
+/-! ## non-vacuity: the relation between the model's and the code's descriptors is inhabited -/
+
+def exV : Genum.Value := { name := "A", value := 1, signed := false, deprecated := false, val := 1, tvals := [.int 7] }
+def exT : Genum.TraitDesc :=
+  { name := "Num", ty := "int", fam := .sint 64, parsable := true, rows := [⟨exV, ⟨"int", .int 7⟩⟩] }
+def exG : GTraitDesc :=
+  { Name := "Num", «Type» := ⟨some .UntypedInt, fun _ _ => false, fun _ _ => false⟩, TypeRef := "int", Parsable := true,
+    Traits := [{ OwningValue := C04Tie.abs exV, value := "7", variableName := "_Num", repeatsParseKey := false }] }
+
+/-- the hypotheses of `go_processDuplicates_eq`, `go_validateParsable_eq`, `go_getParsable…_eq`, `go_instanceOf_eq`
+hold for a concrete enum -/
+example : All₂ (DescRel exV) [exT] [exG] ∧ (∀ v ∈ [exV], C04Tie.U64 v) ∧
+    (∀ t ∈ [exT], ∀ r ∈ t.rows, r.owner ∈ [exV]) ∧ (∀ x ∈ exG.Traits, x.repeatsParseKey = false) := by
+  refine ⟨.cons ⟨rfl, rfl, ?_, .cons ⟨rfl, by decide⟩ .nil⟩ .nil, ?_, ?_, ?_⟩
+  · exact ⟨rfl, rfl, rfl, .UntypedInt, rfl, rfl, rfl⟩
+  · intro v hv; simp at hv; subst hv; unfold C04Tie.U64 exV two64; decide
+  · intro t ht r hr; simp at ht; subst ht; simp [exT] at hr; subst hr; simp
+  · intro x hx; simp [exG] at hx; subst hx; rfl
+
 end C12Tie
